@@ -644,7 +644,12 @@ pub fn run_c03(mut rep: Report) -> i32 {
             merge(&mut rep, name, c);
         }
     }
+    if thorough {
+        // the quick tier runs this part under C05 only (same exploration, both invariants)
+        crate::conc_ingest::run_part(&mut rep, "C03");
+    }
     rep.assume("ingest_operation is a function of (store content, operation, arguments): states are rebuilt by replaying a witness delivery path through the real code");
+    rep.assume("concurrent deliveries: two ingest calls at a time, interleaved at store-call granularity (one call in flight at a time plus blocked begins)");
     rep.assume("authors do not equivocate (no two validly signed operations of one author with the same seq in one log)");
     rep.assume("log id and prune flag arguments are derived from the header/topic consistently, as the node pipeline does");
     rep.finish()
@@ -683,6 +688,7 @@ pub fn run_c05(mut rep: Report) -> i32 {
     for (tag, c) in collected {
         merge(&mut rep, &tag, c);
     }
+    crate::conc_ingest::run_part(&mut rep, "C05");
     rep.set("flag_placements", json!(families));
     rep.assume("prune_entries is applied after every accepted (new or duplicate) prune-flagged operation, exactly as the node pipeline's LogPrune step does");
     rep.assume("authors do not equivocate");
